@@ -177,6 +177,58 @@ func runC09(c *fw.Ctx, idx int) fw.Result {
 				res.Fail("binary-combination", fmt.Sprintf("binary output for (%s, %s) differs from fasta/fasta", filepath.Base(pr[0]), filepath.Base(pr[1])), files, base)
 			}
 		}
+		// an --ignore file as people assemble it: lines copied from FASTA headers ('>' and a
+		// description), lines with trailing blanks, names of records that do not exist. Whatever
+		// such a line is taken to mean, it means the same for a FASTA target as for the CSV of it:
+		// the four combinations are compared with one another only.
+		if fw.Mix(uint64(idx)+4141)%2 == 0 && len(in.Targets) > 0 {
+			lines := append([]string{}, o.Ignore...)
+			for k := 0; k < 4 && k < len(in.Targets); k++ {
+				t := in.Targets[int(fw.Mix(uint64(idx)*7+uint64(k))%uint64(len(in.Targets)))]
+				switch fw.Mix(uint64(idx)*11+uint64(k)) % 4 {
+				case 0:
+					lines = append(lines, t.ID+" England/2020-03-01 collected")
+				case 1:
+					lines = append(lines, ">"+t.ID)
+				case 2:
+					lines = append(lines, t.ID+" ")
+				default:
+					lines = append(lines, "\t"+t.ID)
+				}
+			}
+			lines = append(lines, "no_such_record")
+			b2 := append([]string{}, base...)
+			replaced := false
+			for i := range b2 {
+				if b2[i] == "--ignore" && i+1 < len(b2) {
+					b2[i+1] = w("ignore_decorated.txt", strings.Join(lines, "\n")+"\n")
+					replaced = true
+				}
+			}
+			if !replaced {
+				b2 = append(b2, "--ignore", w("ignore_decorated.txt", strings.Join(lines, "\n")+"\n"))
+			}
+			var first2 []byte
+			for i, pr := range [][2]string{{qf, tf}, {qc, tc}, {qc, tf}, {qf, tc}} {
+				br := fw.RunBin(c.Bin, append(append([]string{}, b2...), "-q", pr[0], "-t", pr[1]), nil, nil, "", 40*time.Second)
+				res.Evals++
+				res.Count("binary_runs_with_decorated_ignore_file", 1)
+				if br.TimedOut {
+					binHang(&res, br, "topranking (decorated ignore file) "+filepath.Base(pr[0])+"/"+filepath.Base(pr[1]), files, b2)
+					break
+				}
+				if i == 0 {
+					first2 = append(br.Stdout, byte('0'+br.Exit%10))
+				} else if string(append(br.Stdout, byte('0'+br.Exit%10))) != string(first2) {
+					f := cloneFiles(files)
+					f["ignore_decorated.txt"] = strings.Join(lines, "\n") + "\n"
+					f["binary_fasta_fasta.txt"] = string(first2)
+					f["binary_this_combination.txt"] = string(br.Stdout)
+					res.Fail("binary-combination-ignore-file", fmt.Sprintf("with an --ignore file holding header-style lines the binary's output (or exit status) for (%s, %s) differs from fasta/fasta: %s", filepath.Base(pr[0]), filepath.Base(pr[1]), firstDiff(string(first2), string(br.Stdout))), f, b2)
+					break
+				}
+			}
+		}
 	}
 	if idx < 2 {
 		res.Sample = map[string]interface{}{"argv": argv, "query_csv": clipStr(qCSV, 400), "target_csv": clipStr(tCSV, 600), "observed": clipStr(outs[0], 400)}
